@@ -992,7 +992,7 @@ struct static_array<T, ::boost::multi::dimensionality_type{0}, Alloc>  // NOLINT
 	}
 
 	// NOSONAR
-	constexpr operator std::add_rvalue_reference_t<typename std::iterator_traits<typename static_array::element_ptr>::reference>() && {  // NOLINT(google-explicit-constructor,hicpp-explicit-conversions)
+	constexpr operator std::remove_reference_t<typename std::iterator_traits<typename static_array::element_ptr>::reference>&&() && {  // add_rvalue_reference_t<T&> is T&, which does not bind to std::move(*base_)  // NOLINT(google-explicit-constructor,hicpp-explicit-conversions)
 		return std::move(*(this->base_));
 	}
 
